@@ -49,7 +49,7 @@ def m_inflight_tick(f, rj):
     the channel still empty).  A tick that was demonstrably delivered before the call, or that belongs to a
     deadline long past, is NOT this finding."""
     tr, line = rj["trace"], rj["line"]
-    win = f.get("window_us", 3000)
+    win = f.get("window_us", 20000)
     arm = [(tr[0]["t"], tr[0]["d"])]          # armings so far: (time of the call, d)
     cancels = []                              # (index of the cancelling call, its time, arming it cancelled, seen)
     seen_since_arm = False                    # a tick / len=1 was observed since the latest arming
@@ -79,11 +79,14 @@ def m_inflight_tick(f, rj):
     bad = tr[line]
     if not (bad["ev"] == "len" and bad["n"] == 1) and not (bad["ev"] == "call" and bad["r"]["got"]):
         return False
-    for (i, tc, (ta, d), seen) in reversed(cancels):
+    for n, (i, tc, (ta, d), seen) in enumerate(reversed(cancels)):
         due = ta + d
-        if seen or abs(tc - due) > win:
+        if seen or not (-2000 <= tc - due <= win):
             continue
-        if at is None or (due <= at <= tc + win):
+        if at is None:
+            # no value to attribute: only the latest cancelling call can be blamed
+            return n == 0
+        if due <= at <= due + 2000:           # the runtime back-dates the value to the deadline
             return True
     return False
 
@@ -115,7 +118,7 @@ def judge(ctx, rejections, findings):
             ctx.known_hits.append(hit)
             vlib.log("KNOWN-FINDING: property=%s %s" % (ctx.pid, hit["what"]))
             os.makedirs(os.path.join(vlib.ROOT, "extras", "replays"), exist_ok=True)
-            rp = os.path.join(vlib.ROOT, "extras", "replays", "%s-%s.json" % (ctx.pid, hit["id"]))
+            rp = os.path.join(vlib.ROOT, "extras", "replays", "%s.json" % hit["id"])
             if not os.path.exists(rp):
                 with open(rp, "w") as fh:
                     json.dump({"property": ctx.pid, "finding": hit["id"], "seed": ctx.seed, "rejected_line": rj["line"],
@@ -149,14 +152,15 @@ def run(ctx):
     # 3. the real code
     binary = ctx.go_build("x03")
     f = {k: ctx.path(k + ".ndjson") for k in ("timer", "days", "cli", "rand", "wide")}
-    args = ["-plans", pdir, "-seed", ctx.seed, "-maxplans", ctx.q(110, 1500), "-nhist", ctx.q(150, 2500),
+    args = ["-plans", pdir, "-seed", ctx.seed, "-maxplans", ctx.q(110, 1000), "-nhist", ctx.q(150, 1500),
             "-ndays", ctx.q(300, 4000), "-npairs", ctx.q(150, 1500), "-nshuf", ctx.q(40, 400), "-census", ctx.q(5, 6)]
     for k, p in f.items():
         args += ["-" + k, p]
     out = ctx.harness(binary, args, traces=list(f.values()), timeout=1500)
     rj = []
     t = {k: ctx.load_traces(p) for k, p in f.items()}
-    rj += ctx.validate(fam, "Timex_Trace", "Timex_Trace.cfg", t["timer"], label="timer", chunk=30000, max_rejections=12)
+    rj += ctx.validate(fam, "Timex_Trace", "Timex_Trace.cfg", t["timer"], label="timer", chunk=ctx.q(30000, 8000),
+                       max_rejections=ctx.q(8, 40))
     rj += ctx.validate(fam, "Days_Trace", "Days_Trace.cfg", t["days"], label="days", chunk=40000)
     rj += ctx.validate(fam, "Days_Trace", "Days_Trace.cfg", t["cli"], label="cli", max_rejections=20)
     rj += ctx.validate(fam, "Randx_Trace", "Randx_Trace.cfg", t["rand"], label="rand", chunk=40000)
@@ -168,7 +172,7 @@ def run(ctx):
         ctx.harness(binary, ["-plans", pdir, "-seed", ctx.seed + 1, "-maxplans", 400, "-nhist", 600, "-timer", f2],
                     traces=[f2], env={"GODEBUG": "asynctimerchan=0"}, timeout=1500)
         t2 = ctx.load_traces(f2)
-        judge(ctx, ctx.validate(fam, "Timex_Trace", "Timex_Trace.cfg", t2, label="timer-sync", chunk=30000), findings)
+        judge(ctx, ctx.validate(fam, "Timex_Trace", "Timex_Trace.cfg", t2, label="timer-sync", chunk=8000), findings)
         ctx.extra["timer_traces_sync_channel"] = len(t2)
     for m in re.finditer(r"(\w+)=(\d+)", out):
         ctx.extra[m.group(1)] = int(m.group(2))
